@@ -155,6 +155,24 @@ func resultKinds() []kindSpec {
 			return b.Iface(pkg, "", impl, false)
 		}},
 		{"empty-iface", func(b *PB, pkg int) *Ty { return &Ty{K: "iface"} }},
+		// interface literals whose method set comes (partly) from an embedded interface
+		{"iface-literal-embedding-named", func(b *PB, pkg int) *Ty {
+			impl := b.Carrier(pkg, "")
+			inner := b.Iface(pkg, "", impl, false)
+			return &Ty{K: "iface", Embeds: []*Ty{inner}, Params: []*Ty{impl}}
+		}},
+		{"iface-literal-embedding-and-method", func(b *PB, pkg int) *Ty {
+			impl := b.Carrier(pkg, "")
+			inner := b.Iface(pkg, "", impl, false)
+			m := fmt.Sprintf("Extra%d", b.next())
+			methodBase(impl).Methods = append(methodBase(impl).Methods, Method{Name: m})
+			return &Ty{K: "iface", Embeds: []*Ty{inner}, Meths: []string{m}, Params: []*Ty{impl}}
+		}},
+		{"slice-of-iface-literal-embedding", func(b *PB, pkg int) *Ty {
+			impl := b.Carrier(pkg, "")
+			inner := b.Iface(pkg, "", impl, false)
+			return SliceOf(&Ty{K: "iface", Embeds: []*Ty{inner}, Params: []*Ty{impl}})
+		}},
 		{"map", func(b *PB, pkg int) *Ty { return MapOf(Basic("string"), b.Carrier(pkg, "")) }},
 		{"pointer", func(b *PB, pkg int) *Ty { return PtrTo(b.Carrier(pkg, "")) }},
 		{"ptr-ptr", func(b *PB, pkg int) *Ty { return PtrTo(PtrTo(b.Carrier(pkg, ""))) }},
